@@ -625,7 +625,11 @@ def overV (G : GP) (op : AOp) (a : V) : Res :=
       | _ =>
         match op with
         | .add | .sub | .mul => ofFlat (G.reduce op R) "reduce"
-        | .div => .ok (.ab .real R.inner)
+        | .div =>
+          -- a zero divisor sends %/ through the fold of the Divide verb (:undefined member by
+          -- member, then usually a TypeError): outside the model
+          if R.rows.tail.flatten.any (· == 0) then .oom "divide:zero-divisor-fold"
+          else .ok (.ab .real R.inner)
         | .min | .max =>
           if R.inner = [] then ofFlat (G.reduce op R) "min/max"    -- a.ndim == 1: np.min / np.max
           else
@@ -660,7 +664,9 @@ def scanV (G : GP) (op : AOp) (a : V) : Res :=
         | .div =>
           -- np.divide.accumulate is real throughout; the torch loop keeps a single row as it
           -- is (integer): known finding, carved out of the model
-          if R.rows.length = 1 then .oom "known:scan-divide-single-row" else .ok (.ab .real t.shape)
+          if R.rows.length = 1 then .oom "known:scan-divide-single-row"
+          else if R.rows.tail.flatten.any (· == 0) then .oom "divide:zero-divisor-fold"
+          else .ok (.ab .real t.shape)
         | .min | .max =>
           let e := if op = .min then EOp.min else EOp.max
           match R.flats with
